@@ -52,8 +52,9 @@ static int approved(const char *n)
         if (strstr(n, "md5") || strstr(n, "sm3") || strstr(n, "mh_sha") || strstr(n, "rolling")) return 0;
         return 1;
 }
-enum { ST_FAILED, ST_PASSED, ST_NOTRUN_FAIL, ST_NOTRUN_PASS, NSTATES };
-static const char *const st_name[] = { "failed", "passed", "not-run+injected-failure", "not-run+pass" };
+enum { ST_FAILED, ST_PASSED, ST_NOTRUN_FAIL, ST_NOTRUN_PASS, ST_NOTRUN_NATFAIL, NSTATES };
+static const char *const st_name[] = { "failed", "passed", "not-run+injected-failure", "not-run+pass", "not-run+real-self-tests-fail-once" };
+static uint8_t *kat_sha, *kat_aes;        /* writable known-answer data of the real self-tests (a flipped bit makes them fail by themselves) */
 static char rbuf[300];
 
 static void one(entry_t *e, int state, uint64_t c)
@@ -76,17 +77,21 @@ static void one(entry_t *e, int state, uint64_t c)
         case ST_PASSED: asm_set_self_tests_status(0); break;
         case ST_NOTRUN_FAIL: asm_set_self_tests_status(2); { uint32_t k = rng_below(&r, 3); wrap_mode = k == 0 ? W_FAIL_FAST : k == 1 ? W_FAIL_AFTER_RUN : W_FAIL_SHA_ONLY; } break;
         case ST_NOTRUN_PASS: asm_set_self_tests_status(2); wrap_mode = rng_below(&r, 4) ? W_PASS_FAST : W_REAL; break;
+        case ST_NOTRUN_NATFAIL: asm_set_self_tests_status(2); wrap_mode = W_REAL; break;
         }
+        uint8_t *flipped = NULL;
+        if (state == ST_NOTRUN_NATFAIL) { flipped = rng_below(&r, 2) ? kat_sha : kat_aes; *flipped ^= 0x01; }
         disp_rearm_all();
         snprintf(rbuf, sizeof rbuf, "{\"engine\":\"fips\",\"entry\":\"%s\",\"state\":\"%s\",\"seed\":%llu,\"case\":%llu}", e->name, st_name[state], (unsigned long long) g_seed, (unsigned long long) c);
         snprintf(cur_replay, sizeof cur_replay, "%s", rbuf);
         LABEL("%s state=%s", e->name, st_name[state]);
         int rc = call(e, v);
         cur_label[0] = 0;
+        if (flipped) *flipped ^= 0x01;          /* the fault was transient */
         int resolved = any_slot_resolved();
         out_count("fips_calls", 1);
         feat(mix64(0xf19, mix64((uint64_t) (e - entries), (uint64_t) state * 4 + (uint64_t) wrap_mode)));
-        int must_refuse = !ok_alg || state == ST_FAILED || state == ST_NOTRUN_FAIL;
+        int must_refuse = !ok_alg || state == ST_FAILED || state == ST_NOTRUN_FAIL || state == ST_NOTRUN_NATFAIL;
         int want = !ok_alg ? ISAL_CRYPTO_ERR_FIPS_INVALID_ALGO : must_refuse ? ISAL_CRYPTO_ERR_SELF_TEST : 0;
         if (rc != want) {
                 snprintf(key, sizeof key, "fips-rc %s %s", e->name, st_name[state]);
@@ -100,12 +105,12 @@ static void one(entry_t *e, int state, uint64_t c)
                         out_viol("C13", key, rbuf, "%s in state '%s' was refused (rc %d) but byte %zu of argument %d changed", e->name, st_name[state], rc, o, i);
                 }
                 /* crypto work: for the not-run state the self-tests themselves legitimately resolve slots when they really run */
-                if (resolved && !(state == ST_NOTRUN_FAIL && wrap_mode == W_FAIL_AFTER_RUN)) {
+                if (resolved && !(state == ST_NOTRUN_FAIL && wrap_mode == W_FAIL_AFTER_RUN) && state != ST_NOTRUN_NATFAIL) {
                         snprintf(key, sizeof key, "fips-crypto-work %s %s", e->name, st_name[state]);
                         out_viol("C13", key, rbuf, "%s in state '%s': the dispatched routine %s was entered although the call had to be refused", e->name, st_name[state], isal_dispatch_entries[resolved - 1].name);
                 }
         }
-        if (ok_alg && (state == ST_NOTRUN_FAIL || state == ST_NOTRUN_PASS)) {
+        if (ok_alg && (state == ST_NOTRUN_FAIL || state == ST_NOTRUN_PASS || state == ST_NOTRUN_NATFAIL)) {
                 if (n_aes != 1 || n_sha != 1) {
                         snprintf(key, sizeof key, "fips-selftest-count %s %s", e->name, st_name[state]);
                         out_viol("C13", key, rbuf, "first call of %s with self-tests not yet run entered the AES self-tests %d time(s) and the SHA self-tests %d time(s)", e->name, n_aes, n_sha);
@@ -114,8 +119,20 @@ static void one(entry_t *e, int state, uint64_t c)
                         snprintf(key, sizeof key, "fips-work-before-selftest %s", e->name);
                         out_viol("C13", key, rbuf, "%s entered the dispatched routine %s before the self-tests had started", e->name, isal_dispatch_entries[resolved_before_selftest - 1].name);
                 }
+                if (state == ST_NOTRUN_NATFAIL) {
+                        /* the verdict must stick: a second call (the fault is gone) is still refused and does not run the self-tests again */
+                        LABEL("%s second call after naturally failed self-tests", e->name);
+                        int rc2 = call(e, v);
+                        cur_label[0] = 0;
+                        out_count("fips_calls", 1);
+                        if (rc2 != ISAL_CRYPTO_ERR_SELF_TEST || n_aes != 1 || n_sha != 1) {
+                                snprintf(key, sizeof key, "fips-failed-verdict-not-sticky %s", e->name);
+                                out_viol("C13", key, rbuf, "the real self-tests failed on the first call (one flipped bit in their %s known-answer data, restored afterwards); the next call of %s returned %d and the self-tests were entered %d/%d times in total", flipped == kat_sha ? "SHA-512" : "AES-GCM", e->name, rc2, n_aes, n_sha);
+                        }
+                        for (int i = 0; i < e->nargs; i++) if (bufs[i] && memcmp(bufs[i], copies[i], e->a[i].size)) { snprintf(key, sizeof key, "fips-output-touched %s %s arg%d", e->name, st_name[state], i); out_viol("C13", key, rbuf, "%s changed argument %d after failed self-tests", e->name, i); }
+                }
                 int s = asm_check_self_tests_status();
-                if (s != (state == ST_NOTRUN_FAIL ? 1 : 0)) { snprintf(key, sizeof key, "fips-verdict-not-published %s %s", e->name, st_name[state]); out_viol("C13", key, rbuf, "after the first call the published status is %d", s); }
+                if (state != ST_NOTRUN_NATFAIL && s != (state == ST_NOTRUN_FAIL ? 1 : 0)) { snprintf(key, sizeof key, "fips-verdict-not-published %s %s", e->name, st_name[state]); out_viol("C13", key, rbuf, "after the first call the published status is %d", s); }
         }
         if (!ok_alg && (n_aes || n_sha) ) { /* running the self-tests from a non-approved entry is allowed; nothing to check */ }
         asm_set_self_tests_status(0);
@@ -157,13 +174,15 @@ int main(int argc, char **argv)
 #ifndef VERIF_FIPS
         out_err("fips engine must be linked against the FIPS_MODE build");
 #endif
+        kat_sha = sym_addr("msg_sha512"); kat_aes = sym_addr("aes_gcm_256_tag");
+        if (!kat_sha || !kat_aes) out_err("known-answer data of the self-tests not found (msg_sha512 / aes_gcm_256_tag)");
         for (uint64_t c = g_from; c < g_from + g_count; c++) {
                 for (int i = 0; i < NENT; i++) {
-                        for (int st = 0; st < NSTATES; st++) one(&entries[i], st, c);
+                        for (int st = 0; st < NSTATES; st++) { if (st == ST_NOTRUN_NATFAIL && ((c + (uint64_t) i) % 6)) continue; one(&entries[i], st, c); }
                         if (strstr(entries[i].name, "xts")) xts_same_keys(&entries[i], c);
                 }
                 /* the three remaining exports */
-                for (int st = 0; st < NSTATES; st++) {
+                for (int st = 0; st < ST_NOTRUN_NATFAIL; st++) {
                         n_aes = n_sha = 0;
                         int fail = st == ST_FAILED || st == ST_NOTRUN_FAIL;
                         asm_set_self_tests_status(st == ST_FAILED ? 1 : st == ST_PASSED ? 0 : 2);
